@@ -10,13 +10,13 @@ PLAN = {
     "thorough": {"shards": 16, "cases": 4000, "min_nontrivial": 5000, "budget_s": 1200},
 }
 RULE = ("cases are (kind, 32-byte key class, plaintext bytes, method) drawn from boundary lengths 0-80/1000 and "
-        "key classes random/zero/ff/one-bit; kinds: roundtrip (oracle decrypts library output and library decrypts "
+        "key classes random/zero/ff/one-bit; kinds: session (2-11 mixed encrypt/decrypt operations with mixed methods inside one open, nested key context, each judged), roundtrip (oracle decrypts library output and library decrypts "
         "oracle output, same and new KeyFile object, wrong key), fresh_iv (64 encryptions of one plaintext), "
         "malformed (short/unaligned/empty ciphertext, unknown or non-string method, wrongly shaped stored secrets "
         "through SecureField.to_python); a case is non-trivial when at least one oracle comparison was evaluated; "
         "distinct = distinct case content")
 REQUIRED = ("aes_oracle_decrypts", "aes_library_decrypts_oracle_output", "xor_oracle_checks", "malformed_rejected",
-            "iv_sets_checked", "wrong_key_checks", "stored_secret_shapes_rejected")
+            "iv_sets_checked", "wrong_key_checks", "stored_secret_shapes_rejected", "sessions_judged")
 ASSUMPTIONS = ["the pure-Python AES-256-CBC/PKCS7 oracle (vf/aes_ref.py, self-tested on FIPS-197 C.3 and SP 800-38A "
                "F.2.5/F.2.6) is the 'standard implementation'",
                "base64 text containing characters outside the alphabet is not judged (Python's decoder ignores them)"]
@@ -54,11 +54,14 @@ def _plaintext(rng):
 
 
 def generate(rng, ctx):
-    kind = weighted(rng, [(6, "roundtrip"), (1, "fresh_iv"), (3, "malformed"), (2, "stored")])
+    kind = weighted(rng, [(6, "roundtrip"), (1, "fresh_iv"), (3, "malformed"), (2, "stored"), (2, "session")])
     case = {"kind": kind, "key": _key(rng), "pt": _plaintext(rng),
             "method": rng.choice(["aes", "xor", "best"]), "r": rng.getrandbits(32)}
     if kind == "fresh_iv":
         case["method"] = rng.choice(["aes", "best"])
+    if kind == "session":
+        case["steps"] = [[rng.choice(["enc", "enc", "dec"]), rng.choice(["aes", "xor", "best", "best"]), rng.choice(LENS)]
+                         for _ in range(rng.randrange(2, 12))]
     if kind == "malformed":
         case["what"] = rng.choice(["short", "unaligned", "empty", "method", "iv_only", "trunc_block", "extended"])
         case["bad_method"] = rng.choice(["rot13", "", "AES", "Xor", "aes ", None, 5, ["aes"], "best2", b"aes"])
@@ -158,7 +161,12 @@ def run(case, ctx, res):
     elif kind == "fresh_iv":
         n = 64
         with kf as k:
-            cts = [k.encrypt(pt, method=method).ciphertext for _ in range(n)]
+            svs = [k.encrypt(pt, method=method) for _ in range(n)]
+            cts = [sv.ciphertext for sv in svs]
+        bad = [sv.method for sv in svs if sv.method != "aes"]
+        if bad:
+            res.viol("M-method", feat, "recorded methods %r among %d encryptions in one context" % (sorted(set(bad)), n))
+            return
         ivs = {c[:16] for c in cts}
         res.count("iv_sets_checked")
         res.count("encryptions", n)
@@ -169,6 +177,36 @@ def run(case, ctx, res):
         if any(c[:16] == bytes(16) for c in cts):
             res.viol("M-iv", feat, "all-zero IV")
         res.nontrivial(kind, method, key.hex(), ptb.hex())
+
+    elif kind == "session":
+        # several operations inside ONE open key context (nested once): every result is judged
+        SV = cc.encryption.SecureValue
+        with kf as k:
+            with kf:
+                for n, (what, m, ln) in enumerate(case["steps"]):
+                    data = bytes((case["r"] + 31 * n + j) % 256 for j in range(ln))
+                    if what == "enc":
+                        sv = k.encrypt(data, method=m)
+                        res.count("encryptions")
+                        if sv.method not in ("aes", "xor") or (m != "best" and sv.method != m):
+                            res.viol("M-method", "session/" + m, "operation %d in one key context: asked for %r, recorded %r" % (n, m, sv.method))
+                            return
+                        got = aes_ref.aes_decrypt(key, sv.ciphertext) if sv.method == "aes" else aes_ref.xor_stream(key, sv.ciphertext)
+                        res.count("aes_oracle_decrypts" if sv.method == "aes" else "xor_oracle_checks")
+                        if got != data:
+                            res.viol("M-aes-standard" if sv.method == "aes" else "M-xor", "session/" + m,
+                                     "operation %d in one key context: the oracle does not recover the plaintext" % n)
+                            return
+                    else:
+                        meth = "xor" if m == "xor" else "aes"
+                        ct = aes_ref.xor_stream(key, data) if meth == "xor" else aes_ref.aes_encrypt(key, bytes(range(n, n + 16)), data)
+                        back = k.decrypt(SV(meth, ct))
+                        res.count("aes_library_decrypts_oracle_output" if meth == "aes" else "xor_oracle_checks")
+                        if back != data:
+                            res.viol("M-roundtrip", "session/" + meth, "operation %d in one key context: decrypt of oracle output differs" % n)
+                            return
+        res.count("sessions_judged")
+        res.nontrivial(kind, key.hex(), case["steps"], case["r"])
 
     elif kind == "malformed":
         what = case["what"]
